@@ -19,7 +19,8 @@ import time
 ROOT = os.path.dirname(os.path.dirname(os.path.abspath(__file__)))
 REPO = os.environ.get("VERIF_REPO", "/repo")
 # runs against a scratch copy of the repository leave /verif/evidence and /verif/replay alone
-OUTROOT = ROOT if REPO == "/repo" else os.path.join("/tmp", "verif-scratch-out")
+# checks against a scratch copy of the repository (bin/seedtest) write next to that copy, not into /verif
+OUTROOT = ROOT if REPO == "/repo" else os.path.join("/tmp", "verif-scratch-out", os.path.basename(REPO.rstrip("/")))
 SPEC = os.path.join(ROOT, "spec")
 HARNESS = os.path.join(ROOT, "harness")
 JAR = "/opt/veriftools/tla/tla2tools.jar:/opt/veriftools/tla/CommunityModules-deps.jar"
